@@ -127,12 +127,25 @@ def run(tier, seed):
         # the inventory with the mixed-signature unmock_with list no longer compiles: look for a concrete failing
         # call on the homogeneous trait T alone before reporting the broken correspondence
         cases = [gen_case(rng, pool=[0, 1, 2, 3]) for _ in range(200)]
+        def concrete_or_raise():
+            # neither inventory builds (or the small one behaves): before reporting the broken correspondence, look for a concrete generated
+            # trait on which the macro and the model disagree (shape part)
+            n, payload = shape_part(rng, tier, seed)
+            if payload is None:
+                raise build_failure
+            payload["build_failure_of_the_inventory"] = build_failure.detail[-1200:]
+            path = C.write_replay("C16", seed, payload)
+            C.write_evidence("C16", tier, seed, {"obligations": len(obligations) + 2, "discharged": len(obligations), "theorems": obligations,
+                                                 "checker_cmd": f"./check C16 --tier {tier}", "trusted_base": C.TRUSTED_BASE, "evaluations": n,
+                                                 "distinct_nontrivial": n, "rule": RULE}, time.time() - t0, 1)
+            C.violation("C16", path)
+            return 1
         try:
             impl, model = D.both(CRATE, cases, features=["std-build"])
         except C.CheckFailure:
-            raise build_failure
+            return concrete_or_raise()
         if all(proj_kinds(c, impl[i]) == proj_kinds(c, model[i]) for i, c in enumerate(cases)):
-            raise build_failure
+            return concrete_or_raise()
         pending_failure = None
     for c, m in zip(cases, model):
         c["_obs"] = m
